@@ -17,18 +17,18 @@
               step of the other direction (full traversals, also after a turn)          *)
 EXTENDS Integers, Sequences, FiniteSets, TLC, Json
 CONSTANTS Depth, Mode,
-          SeekT,      \* seek arguments (extended abstract times)
+          SeekT,      \* seek arguments (extended abstract times + 2: cfg files cannot hold negative numbers)
           Kinds,      \* span kinds
-          BoundsT,    \* bounds ends for setbounds (extended abstract times)
+          BoundsT,    \* bounds ends for setbounds (extended abstract times + 2)
           MaxSeeks    \* seeks per sequence ("mixed")
 VARIABLES hist
 Cmd(c, k, t, a, b) == [c |-> c, k |-> k, t |-> t, a |-> a, b |-> b]
 Seeks == {Cmd("seekfirst", "", 0, 0, 0), Cmd("seeklast", "", 0, 0, 0)}
-           \cup {Cmd(c, "", t, 0, 0) : c \in {"seekle", "seekge"}, t \in SeekT}
+           \cup {Cmd(c, "", t - 2, 0, 0) : c \in {"seekle", "seekge"}, t \in SeekT}
 FwdSteps == {Cmd("next", k, 0, 0, 0) : k \in Kinds} \cup {Cmd("nextauto", "", 0, 0, 0)}
 BwdSteps == {Cmd("prev", k, 0, 0, 0) : k \in Kinds} \cup {Cmd("prevauto", "", 0, 0, 0)}
 Steps == FwdSteps \cup BwdSteps
-SetBs == {Cmd("setbounds", "", 0, a, b) : a \in BoundsT, b \in BoundsT}
+SetBs == {Cmd("setbounds", "", 0, a - 2, b - 2) : a \in BoundsT, b \in BoundsT}
 IsSeek(x) == x.c \in {"seekfirst", "seeklast", "seekle", "seekge"}
 Count(P(_)) == Cardinality({i \in DOMAIN hist : P(hist[i])})
 IsSetB(x) == x.c = "setbounds"
